@@ -225,6 +225,14 @@ M('F8R', 'src/xdoctest/parser.py',
   "final_lines = exec_source_lines", ['C02', 'C18'], 'F8 repair reverted')
 M('F11R', 'src/xdoctest/checker.py', "                            inner = inner.strip()", "                            pass",
   ['C05'], 'F11 repair reverted')
+M('F4R', 'src/xdoctest/doctest_example.py', """                    self.exc_info = sys.exc_info()
+                    # A SyntaxError knows its line within the part
+                    self.failed_tb_lineno = getattr(self.exc_info[1], 'lineno', None) or 1
+                    if on_error == 'raise':
+                        raise
+                    break
+""", """                    raise
+""", ['C09', 'C08'], 'F4 repair reverted: compile-only SyntaxError escapes run()')
 M('F17R', 'src/xdoctest/doctest_example.py', """                part_directive = None
                 try:
                     try:
